@@ -54,6 +54,30 @@ Drift(e, r) ==
            \cup (IF p.cmp \in {"state", "both"} /\ ~dirsOk THEN {"B.slots"} ELSE {})
            \cup (IF p.cmp \in {"state", "both"} /\ ~fatOk THEN {"B.table"} ELSE {})
 
+(* ---------------- behaviours of FileB (file I/O): result, table, the two directory entries ---------------- *)
+NmF == <<70, 32, 32, 32, 32, 32, 32, 32, 66, 73, 78>>          \* "F.BIN"
+NmO == <<79, 32, 32, 32, 32, 32, 32, 32, 66, 73, 78>>          \* "O.BIN"
+ObsEnt(sl, nm, cell) ==
+   LET hit == {i \in 1..Len(sl) : sl[i].t = "S" /\ sl[i].n = nm} IN
+   IF hit = {} THEN [cl |-> -1, sz |-> -1]
+   ELSE LET s == sl[CHOOSE i \in hit : TRUE] IN [cl |-> s.cl, sz |-> s.sz \div cell, rem |-> s.sz % cell]
+DriftF(e, r) ==
+   LET p == e.tag
+       U == p.cell
+       q == p.res
+       resOk == IF q.k = "err" THEN e.r.k = "err" /\ e.r.e = q.e
+                ELSE /\ e.r.k = "ok"
+                     /\ (Has(q, "n") => e.r.n = q.n * U)
+                     /\ (Has(q, "pos") => e.r.pos = q.pos * U)
+       root == r.dirs[1].sl
+       f == ObsEnt(root, NmF, U)
+       o == ObsEnt(root, NmO, U)
+       entOk == f = [cl |-> p.ent.cl, sz |-> p.ent.sz, rem |-> 0] /\ o = [cl |-> p.oth.cl, sz |-> p.oth.sz, rem |-> 0]
+       fatOk == \A c \in 2..(r.g.n + 1) : ObsFat(r.fats[1], r.g.n)[c] = p.fat[ToString(c)]
+   IN (IF p.cmp \in {"res", "both"} /\ ~resOk THEN {"B.fresult"} ELSE {})
+      \cup (IF p.cmp \in {"state", "both"} /\ ~entOk THEN {"B.fentry"} ELSE {})
+      \cup (IF p.cmp \in {"state", "both"} /\ ~fatOk THEN {"B.ftable"} ELSE {})
+
 Init == l = 1 /\ raw = [ok |-> FALSE]
 Next ==
    /\ l <= Len(Rec)
@@ -61,7 +85,7 @@ Next ==
    /\ LET e == Rec[l]
           r == IF Has(e, "raw") THEN e.raw ELSE raw
       IN /\ raw' = r
-         /\ \A t \in Drift(e, r) : PrintT(<<"NOTE", t, e.pid, e.i, e.op>>)
+         /\ \A t \in (IF Has(e, "tag") /\ Has(e.tag, "cell") THEN DriftF(e, r) ELSE Drift(e, r)) : PrintT(<<"NOTE", t, e.pid, e.i, e.op>>)
          /\ (Has(e, "tag") => PrintT(<<"INFO", "compared", e.pid, e.i, e.op>>))
 Spec == Init /\ [][Next]_<<l, raw>>
 TraceAccepted == TLCGet("stats").diameter = Len(Rec) + 1
